@@ -640,3 +640,28 @@ Example mixed_nonvacuous :
   map l_c (w_log w) = [0;1;2;3;4]%nat /\
   map l_resp (w_log w) = [RSet true; RInc 7; RPatch 5; RInc 4; RGet (Some (VI 4))].
 Proof. vm_compute. repeat split; reflexivity. Qed.
+
+(* the oracle clause of the harness is a consequence of the sequential meaning: in every
+   serial order a matching shift hands out only records that satisfy its filter, and a
+   rejected conditional increment changes nothing *)
+Lemma shiftm_returns_matching s thr s' v :
+  seq_step s (OShiftM thr) = (s', RShiftM (Some v)) -> shiftm_match thr (Some v) = true /\ s = Some v /\ s' = None.
+Proof.
+  simpl. destruct (shiftm_match thr s) eqn:E; intro H; inversion H; subst. auto.
+Qed.
+
+Lemma incif_rejected_no_change s c cv d s' v :
+  seq_step s (OIncIf c cv d) = (s', RIncNo v) -> s' = s.
+Proof.
+  simpl. destruct s as [[z|z|]|]; try (destruct (cond_holds c cv _)); intro H; inversion H; reflexivity.
+Qed.
+
+(* the protocol theorems cover the added operations as well (they are parametric in the
+   read-modify-write function); a concrete schedule with conditional increments and a
+   matching shift *)
+Example mixed2_nonvacuous :
+  let prog := [(OIncIf 0 5 1, true); (OSet (VI 70), false); (OShiftM 50, true); (OIncIf 1 10 2, false)] in
+  let w := krun false (kinit None prog) [0;1;3;2; 0;0;0;0;0; 1;1;1;1;1; 3;3;3;3;3; 2;2;2;2;2]%nat in
+  all_done w = true /\ w_val w = None /\
+  map l_resp (w_log w) = [RIncNo 0; RSet true; RInc 72; RShiftM (Some (VI 72))].
+Proof. vm_compute. repeat split; reflexivity. Qed.
